@@ -85,7 +85,9 @@ func (i *icache) update(k string, props MutableProps) {
 		// refresh the expiration date
 		item.exp = time.Now().Add(i.expire)
 
-		i.items[k] = item
+		// the map adopts the assigning key's memory for an existing
+		// entry, and the caller's key may alias a request buffer
+		i.items[strings.Clone(k)] = item
 	}
 }
 
